@@ -73,6 +73,37 @@ class Stub(types.SimpleNamespace):
 
     __hash__ = object.__hash__
 
+    # arithmetic on a stub: what the world says (`_neg`, `_mul`, `_add`, `_sub`, `_rsub`, `_abs`: callables), else the operation is unknown
+    def _arith(self, slot, *a):
+        f = vars(self).get(slot)
+        if f is None:
+            raise TypeError(f"the stub does not model `{slot.strip('_')}`")
+        return f(*a)
+
+    def __neg__(self):
+        return self._arith("_neg")
+
+    def __abs__(self):
+        return self._arith("_abs")
+
+    def __mul__(self, k):
+        return self._arith("_mul", k)
+
+    def __rmul__(self, k):
+        return self._arith("_mul", k)
+
+    def __add__(self, o):
+        return self._arith("_add", o)
+
+    def __radd__(self, o):
+        return self._arith("_add", o)
+
+    def __sub__(self, o):
+        return self._arith("_sub", o)
+
+    def __rsub__(self, o):
+        return self._arith("_rsub", o)
+
 
 class Obj(Stub):
     """an instance stub whose class part is analysed source: `_methods` maps the names defined in the class body to their
@@ -137,7 +168,38 @@ def _attr(v, name, funcs, depth):
             return lambda *a, **k: call(fn, [v, *a], k, funcs, depth + 1)
         if name in d.get("_natives", {}):
             return d["_natives"][name]
+        sup = d.get("_super")
+        if sup and name in sup[0]:
+            # not defined in the class itself: the parent class's method (the analysed source of the parent, with its module's globals)
+            fn = sup[0][name]
+            pfuncs = sup[1] or funcs
+            if depth > 8:
+                raise Unsupported("call depth")
+            decos = {un(x) for x in fn.decorator_list}
+            if "staticmethod" in decos:
+                return lambda *a, **k: call(fn, list(a), k, pfuncs, depth + 1)
+            if "property" in decos or "cached_property" in decos:
+                return call(fn, [v], {}, pfuncs, depth + 1)
+            return lambda *a, **k: call(fn, [v, *a], k, pfuncs, depth + 1)
         raise Unsupported(f"attribute `{name}` of the instance stub")
+    if isinstance(v, ClassStub) and name not in vars(v):
+        # a method of the analysed class reached through the class (`self.__class__._helper(...)`, `cls._helper(...)`, `Class.method(obj)`)
+        d = vars(v)
+        meths = d.get("_methods") or {}
+        if callable(meths):
+            meths = meths()
+        if name in meths:
+            fn = meths[name]
+            cfuncs = d.get("_funcs") or funcs
+            if depth > 8:
+                raise Unsupported("call depth")
+            decos = {un(x) for x in fn.decorator_list}
+            if "classmethod" in decos:
+                return lambda *a, **k: call(fn, [v, *a], k, cfuncs, depth + 1)
+            if decos - {"staticmethod"}:
+                raise Unsupported(f"`{name}` reached through the class is decorated with {sorted(decos)}")
+            return lambda *a, **k: call(fn, list(a), k, cfuncs, depth + 1)        # static method / plain function taken from the class
+        raise Unsupported(f"attribute `{name}` of the class stub")
     if isinstance(v, types.SimpleNamespace) and name in vars(v):
         return vars(v)[name]
     return getattr(v, name)
@@ -159,6 +221,42 @@ _EXC_BASES = {"ParserError": ("ValueError",), "OverflowError": ("ArithmeticError
 
 
 _MISSING = object()
+
+
+def _handler_names(t: ast.AST, env, funcs, depth) -> list[str]:
+    """the exception classes an `except` clause (or contextlib.suppress) lists, by name; a local variable or a subscript holding the class is
+    evaluated"""
+    out = []
+    for x in (t.elts if isinstance(t, ast.Tuple) else [t]):
+        if isinstance(x, ast.Name) and x.id in env or not isinstance(x, (ast.Name, ast.Attribute)):
+            v = ev(x, env, funcs, depth)
+            for c in (v if isinstance(v, tuple) else (v,)):
+                nm = getattr(c, "__name__", None) or getattr(c, "_exc_name", None)
+                if not isinstance(nm, str):
+                    raise Unsupported(f"`except {un(x)[:30]}`: not an exception class the interpreter knows")
+                out.append(nm)
+        else:
+            out.append(un(x))
+    return out
+
+
+def _exc_matches(raised: str, names: list[str]) -> bool:
+    import builtins
+    if raised in names or "Exception" in names or "BaseException" in names:
+        return True
+    seen, todo = set(), [raised]
+    while todo:
+        k = todo.pop()
+        if k in seen:
+            continue
+        seen.add(k)
+        if k in names:
+            return True
+        todo.extend(_EXC_BASES.get(k, ()))
+        b = getattr(builtins, k, None)
+        if isinstance(b, type) and issubclass(b, BaseException):
+            todo.extend(c.__name__ for c in b.__mro__[1:] if c not in (object, BaseException, Exception))
+    return False
 
 
 class Raised(ValueError):
@@ -188,20 +286,171 @@ MAX_ITER = 400
 _BUILTINS = {"range": range, "int": int, "str": str, "len": len, "bool": bool, "abs": abs, "divmod": divmod, "min": min, "max": max, "round": round,
              "float": float, "any": any, "all": all, "sum": sum, "sorted": sorted, "tuple": tuple, "list": list, "enumerate": lambda *a, **k: list(enumerate(*a, **k)),
              "callable": callable, "zip": lambda *a: list(zip(*a)), "reversed": lambda x: list(reversed(x)), "set": set, "frozenset": frozenset, "repr": repr, "pow": pow, "chr": chr, "ord": ord,
-             "next": lambda it, *d: _next(it, *d), "iter": lambda x: list(x), "dict": dict, "isinstance_": None, "type_": None, "map": lambda f, *a: list(map(f, *a)),
-             "filter": lambda f, a: [x for x in a if (f(x) if f is not None else x)]}
+             "next": lambda it, *d: _next(it, *d), "iter": lambda x: list(x), "dict": dict, "isinstance_": None, "type_": None, "map": map, "filter": filter}
 _BUILTINS = {k: v for k, v in _BUILTINS.items() if v is not None}
 
 
+def _walrus_out(comp: ast.AST, inner: dict, outer: dict) -> None:
+    """an assignment expression inside a comprehension binds its target in the enclosing scope"""
+    names = getattr(comp, "_pvs_walrus", None)
+    if names is None:
+        names = comp._pvs_walrus = tuple(sorted({x.target.id for x in ast.walk(comp) if isinstance(x, ast.NamedExpr)}))      # type: ignore[attr-defined]
+    for nm in names:
+        if nm in inner:
+            outer[nm] = inner[nm]
+
+
+def _std_call(f, args, kws):
+    try:
+        return f(*args, **kws)
+    except (ValueError, OverflowError, ZeroDivisionError) as e:
+        if isinstance(e, Raised):
+            raise           # a stub of the world reporting what the code it stands for raises
+        raise Raised(f"raise reached: {type(e).__name__}: {e}", type(e).__name__) from None
+
+
 def _next(it, *default):
-    """next() of an iterator: generator expressions and iter() are evaluated eagerly into lists, so it is the first element"""
+    """next() of an iterator: iter() of a container is a list consumed from the front; generator expressions, map / filter and the
+    values of a generator function are iterators"""
     if isinstance(it, list):
         if it:
             return it.pop(0)            # consumed, like the iterator it stands for
         if default:
             return default[0]
         raise Raised("raise reached: StopIteration", "StopIteration")
-    raise Unsupported("next() of a value that is not an evaluated generator")
+    if hasattr(it, "__next__"):
+        try:
+            return next(it)
+        except StopIteration:
+            if default:
+                return default[0]
+            raise Raised("raise reached: StopIteration", "StopIteration") from None
+    raise Unsupported("next() of a value that is not an iterator")
+
+
+def _count(start=0, step=1):
+    for i in range(MAX_ITER):
+        yield start + i * step
+    raise Unsupported("an unbounded iterator is consumed beyond the iteration bound")
+
+
+def _repeat(obj, times=None):
+    for _ in range(MAX_ITER if times is None else times):
+        yield obj
+    if times is None:
+        raise Unsupported("an unbounded iterator is consumed beyond the iteration bound")
+
+
+def _cycle(it):
+    items = list(it)
+    if not items:
+        return
+    for i in range(MAX_ITER):
+        yield items[i % len(items)]
+    raise Unsupported("an unbounded iterator is consumed beyond the iteration bound")
+
+
+import bisect as _bisect
+import itertools as _itertools
+import math as _math
+
+
+def _public(mod, skip=()):
+    return {k: v for k, v in vars(mod).items() if not k.startswith("_") and callable(v) and k not in skip}
+
+
+_STD_VOCABULARY = {
+    "functools": {"partial": _functools.partial, "reduce": _functools.reduce},
+    "operator": _public(_operator),
+    "itertools": {**_public(_itertools, ("count", "repeat", "cycle", "tee")), "count": _count, "repeat": _repeat, "cycle": _cycle},
+    "bisect": _public(_bisect),
+    "math": {**_public(_math), "pi": _math.pi, "inf": _math.inf},
+    "datetime": {"datetime": _dt.datetime, "date": _dt.date, "time": _dt.time, "timedelta": _dt.timedelta, "timezone": _dt.timezone, "tzinfo": _dt.tzinfo,
+                 "MINYEAR": _dt.MINYEAR, "MAXYEAR": _dt.MAXYEAR},
+    "calendar": {k_: getattr(__import__("calendar"), k_) for k_ in ("monthrange", "isleap", "leapdays", "weekday", "monthcalendar", "mdays", "timegm",
+                                                                  "MONDAY", "TUESDAY", "WEDNESDAY", "THURSDAY", "FRIDAY", "SATURDAY", "SUNDAY")},
+}
+
+
+def std_module(name: str) -> "Stub":
+    """the interpreter's stand-in for a module of the pure part of the standard library, for a world's globals"""
+    return Stub(**_STD_VOCABULARY[name])
+
+
+def _module_root(node: ast.AST):
+    root = node
+    for _ in range(400):
+        p = getattr(root, "_parent", None)
+        if p is None:
+            break
+        root = p
+    return root if isinstance(root, ast.Module) else None
+
+
+def _module_level(node: ast.AST, name: str, funcs, depth):
+    """the module-level definition of `name` in the module `node` belongs to, for a name the world does not define: a function of
+    the module (interpreted when called) or a table / constant / functor the module builds at import time (evaluated in the world's
+    globals, once)"""
+    root = _module_root(node)
+    if root is None:
+        return _MISSING
+    top = getattr(root, "_pvs_top", None)
+    if top is None:
+        top = {}
+        for st in root.body:
+            if isinstance(st, ast.FunctionDef):
+                top[st.name] = st
+            elif isinstance(st, (ast.Assign, ast.AnnAssign)) and getattr(st, "value", None) is not None:
+                tg = st.targets[0] if isinstance(st, ast.Assign) and len(st.targets) == 1 else getattr(st, "target", None)
+                if isinstance(tg, ast.Name):
+                    top[tg.id] = st.value
+        root._pvs_top = top         # type: ignore[attr-defined]
+    d = top.get(name)
+    if d is None:
+        return _MISSING
+    if isinstance(d, ast.FunctionDef):
+        return lambda *a, **k: call(d, list(a), k, funcs, depth + 1)
+    g = funcs.get("$globals") if funcs else None
+    busy = getattr(root, "_pvs_busy", None)
+    if busy is None:
+        busy = root._pvs_busy = set()       # type: ignore[attr-defined]
+    if name in busy or depth > 12:
+        return _MISSING
+    busy.add(name)
+    try:
+        v = ev(d, {}, funcs, depth + 1)
+    finally:
+        busy.discard(name)
+    if isinstance(g, dict):
+        g[name] = v
+    return v
+
+
+def _std_import(node: ast.AST, name: str):
+    """what `name` is bound to by an import of the analysed module from the pure, deterministic part of the standard library
+    (functools.partial / reduce, operator, itertools, bisect, math) - consulted only for a name the world does not define"""
+    root = node
+    for _ in range(200):
+        p = getattr(root, "_parent", None)
+        if p is None:
+            break
+        root = p
+    if not isinstance(root, ast.Module):
+        return _MISSING
+    table = getattr(root, "_pvs_std_imports", None)
+    if table is None:
+        table = {}
+        for st in ast.walk(root):
+            if isinstance(st, ast.Import):
+                for a in st.names:
+                    if a.name in _STD_VOCABULARY:
+                        table[a.asname or a.name] = Stub(**_STD_VOCABULARY[a.name])
+            elif isinstance(st, ast.ImportFrom) and st.level == 0 and st.module in _STD_VOCABULARY:
+                for a in st.names:
+                    if a.name in _STD_VOCABULARY[st.module]:
+                        table[a.asname or a.name] = _STD_VOCABULARY[st.module][a.name]
+        root._pvs_std_imports = table       # type: ignore[attr-defined]
+    return table.get(name, _MISSING)
 
 
 _BUILTIN_VALUES = {"tuple": tuple, "list": list, "dict": dict, "set": set, "frozenset": frozenset, "str": str, "int": int, "float": float, "bool": bool, "bytes": bytes,
@@ -230,6 +479,12 @@ def ev(n: ast.AST, env: dict[str, Any], funcs: dict[str, ast.FunctionDef] | None
             # a function of the analysed module used as a value (an entry of a table, an argument): calling it interprets it
             fnode, ffuncs = (fdef, funcs) if isinstance(fdef, ast.FunctionDef) else fdef
             return lambda *a, **k: call(fnode, list(a), k, ffuncs, depth + 1)
+        std = _std_import(n, n.id)
+        if std is not _MISSING:
+            return std
+        std = _module_level(n, n.id, funcs, depth)
+        if std is not _MISSING:
+            return std
         raise Unsupported(f"free name `{n.id}`")
     if t is ast.Attribute:
         v = ev(n.value, env, funcs, depth)
@@ -304,6 +559,8 @@ def ev(n: ast.AST, env: dict[str, Any], funcs: dict[str, ast.FunctionDef] | None
                 try:
                     return tgt(*args, **kws)
                 except (ValueError, OverflowError, ZeroDivisionError) as e:
+                    if isinstance(e, Raised):
+                        raise           # a stub of the world reporting what the code it stands for raises
                     raise Raised(f"raise reached: {type(e).__name__}: {e}", type(e).__name__) from None
             if n.func.id == "type" and len(args) == 1 and isinstance(args[0], Obj):
                 return vars(args[0])["_ctor"]
@@ -311,6 +568,8 @@ def ev(n: ast.AST, env: dict[str, Any], funcs: dict[str, ast.FunctionDef] | None
                 try:
                     return _BUILTINS[n.func.id](*args, **kws)
                 except (ValueError, OverflowError, ZeroDivisionError) as e:
+                    if isinstance(e, Raised):
+                        raise           # a stub of the world reporting what the code it stands for raises
                     if all(isinstance(a, (str, int, float, bool, type(None))) for a in args):
                         # what the analysed code itself would raise here (int('1,5')): an outcome, not a limit of the interpreter
                         raise Raised(f"raise reached: {type(e).__name__}: {e}", type(e).__name__) from None
@@ -344,10 +603,21 @@ def ev(n: ast.AST, env: dict[str, Any], funcs: dict[str, ast.FunctionDef] | None
                     try:
                         return f(*args, **kws)
                     except (ValueError, OverflowError) as e:
+                        if isinstance(e, Raised):
+                            raise           # a stub of the world reporting what the code it stands for raises
                         # what the standard library raises for these arguments (date(2015, 2, 29)): an outcome of the analysed code
                         raise Raised(f"raise reached: {type(e).__name__}: {e}", type(e).__name__) from None
+            if isinstance(recv, type) and (recv, n.func.attr) in ((dict, "fromkeys"), (str, "join"), (str, "format"), (int, "from_bytes"), (str, "maketrans")):
+                return getattr(recv, n.func.attr)(*args, **kws)         # a pure class-level function of a builtin type
             if isinstance(recv, (dict, set, frozenset, list, tuple, types.MappingProxyType)) and n.func.attr in ("get", "keys", "values", "items", "index", "count", "copy"):
                 return getattr(recv, n.func.attr)(*args, **kws)
+        if isinstance(n.func, ast.Name) and n.func.id not in env and n.func.id not in _g and n.func.id not in funcs:
+            std = _std_import(n, n.func.id)
+            if std is not _MISSING and callable(std):
+                return _std_call(std, args, kws)
+            std = _module_level(n, n.func.id, funcs, depth)
+            if std is not _MISSING and callable(std) and isinstance(std, _CALLABLE_VALUES):
+                return std(*args, **kws)
         if isinstance(n.func, (ast.Subscript, ast.IfExp, ast.BoolOp)):
             f = ev(n.func, env, funcs, depth)       # a callable taken out of a table of the analysed code
             if isinstance(f, _CALLABLE_VALUES) or f in (str, int, float, bool):
@@ -424,7 +694,33 @@ def ev(n: ast.AST, env: dict[str, Any], funcs: dict[str, ast.FunctionDef] | None
                 e2[a_.vararg.arg] = tuple(args[len(names):])
             return ev(n.body, e2, funcs, depth + 1)
         return _lam
-    if t in (ast.ListComp, ast.SetComp, ast.GeneratorExp, ast.DictComp):
+    if t is ast.NamedExpr:
+        v = ev(n.value, env, funcs, depth)
+        env[n.target.id] = v
+        return v
+    if t is ast.GeneratorExp:
+        first = ev(n.generators[0].iter, env, funcs, depth)         # the outermost iterable is evaluated where the expression stands
+
+        def _lazy(i, e2):
+            g = n.generators[i]
+            cnt = 0
+            for item in (first if i == 0 else ev(g.iter, e2, funcs, depth)):
+                cnt += 1
+                if cnt > 5000:
+                    raise Unsupported("generator expression over a long sequence")
+                e3 = dict(e2)
+                bind(g.target, item, e3)
+                keep = all(ev(c, e3, funcs, depth) for c in g.ifs)
+                _walrus_out(n, e3, env)
+                if keep:
+                    if i + 1 == len(n.generators):
+                        v_ = ev(n.elt, e3, funcs, depth)
+                        _walrus_out(n, e3, env)
+                        yield v_
+                    else:
+                        yield from _lazy(i + 1, e3)
+        return _lazy(0, dict(env))
+    if t in (ast.ListComp, ast.SetComp, ast.DictComp):
         out_c: list[Any] = []
 
         def _gen(i, e2):
@@ -441,8 +737,11 @@ def ev(n: ast.AST, env: dict[str, Any], funcs: dict[str, ast.FunctionDef] | None
             for item in seq:
                 e3 = dict(e2)
                 bind(g.target, item, e3)
-                if all(ev(c, e3, funcs, depth) for c in g.ifs):
+                keep = all(ev(c, e3, funcs, depth) for c in g.ifs)
+                _walrus_out(n, e3, env)
+                if keep:
                     _gen(i + 1, e3)
+                    _walrus_out(n, e3, env)
         _gen(0, env)
         if isinstance(n, ast.DictComp):
             return dict(out_c)
@@ -553,11 +852,15 @@ def run(stmts: list[ast.stmt], env: dict[str, Any], funcs: dict[str, ast.Functio
             if not broke and s.orelse:
                 run(s.orelse, env, funcs, depth)
         elif isinstance(s, ast.For):
-            seq = list(ev(s.iter, env, funcs, depth))
-            if len(seq) > MAX_ITER:
+            seq = ev(s.iter, env, funcs, depth)
+            if isinstance(seq, (list, tuple, str, dict, set, frozenset, range)) and len(seq) > MAX_ITER:
                 raise Unsupported("loop too long")
             broke = False
+            it = 0
             for item in seq:
+                it += 1
+                if it > MAX_ITER:
+                    raise Unsupported("loop too long")
                 bind(s.target, item, env)
                 try:
                     run(s.body, env, funcs, depth)
@@ -598,23 +901,16 @@ def run(stmts: list[ast.stmt], env: dict[str, Any], funcs: dict[str, ast.Functio
             getattr(recv, s.value.func.attr)(*a_, **k_)
         elif isinstance(s, ast.Expr) and isinstance(s.value, ast.Call):
             ev(s.value, env, funcs, depth)          # evaluated for the calls it makes on stubs (recorded by them)
-        elif isinstance(s, ast.Expr) and isinstance(s.value, ast.Yield):
-            # a generator is evaluated eagerly: the values it yields are collected (bounded by the loop bound)
-            out_y = env.setdefault("$yielded", [])
-            out_y.append(ev(s.value.value, env, funcs, depth) if s.value.value is not None else None)
-            if len(out_y) > MAX_ITER:
-                raise Unsupported("generator yields more values than the iteration bound")
-        elif isinstance(s, ast.Expr) and isinstance(s.value, ast.YieldFrom):
-            env.setdefault("$yielded", []).extend(list(ev(s.value.value, env, funcs, depth)))
+        elif isinstance(s, ast.Expr) and isinstance(s.value, (ast.Yield, ast.YieldFrom)):
+            raise Unsupported("`yield` in a position the interpreter does not run lazily")
         elif isinstance(s, ast.Try):
             try:
                 try:
                     run(s.body, env, funcs, depth)
                 except Raised as e:
                     for h in s.handlers:
-                        names = [] if h.type is None else [un(x) for x in (h.type.elts if isinstance(h.type, ast.Tuple) else [h.type])]
-                        if h.type is None or e.exc_name in names or "Exception" in names or "BaseException" in names \
-                                or any(b in names for b in _EXC_BASES.get(e.exc_name, ())):
+                        names = [] if h.type is None else _handler_names(h.type, env, funcs, depth)
+                        if h.type is None or _exc_matches(e.exc_name, names):
                             if h.name:
                                 env[h.name] = e
                             try:
@@ -631,12 +927,79 @@ def run(stmts: list[ast.stmt], env: dict[str, Any], funcs: dict[str, ast.Functio
             finally:
                 if s.finalbody:
                     run(s.finalbody, env, funcs, depth)
+        elif isinstance(s, ast.With) and all(isinstance(it.context_expr, ast.Call) and un(it.context_expr.func) in ("contextlib.suppress", "suppress")
+                                             and it.optional_vars is None for it in s.items):
+            # `with contextlib.suppress(E, ...)`: the body, with the listed exceptions swallowed
+            names = [nm for it in s.items for a in it.context_expr.args for nm in _handler_names(a, env, funcs, depth)]
+            try:
+                run(s.body, env, funcs, depth)
+            except Raised as e:
+                if not _exc_matches(e.exc_name, names):
+                    raise
         elif isinstance(s, ast.Raise):
             exc = s.exc.func if isinstance(s.exc, ast.Call) else s.exc
             raise Raised("raise reached", un(exc) if exc is not None else "")
         else:
             raise Unsupported(f"statement `{un(s)[:50]}`")
     return env
+
+
+def _has_yield(s: ast.AST) -> bool:
+    c = getattr(s, "_pvs_has_yield", None)
+    if c is None:
+        c = any(isinstance(x, (ast.Yield, ast.YieldFrom)) for x in ast.walk(s)) and not isinstance(s, (ast.FunctionDef, ast.Lambda))
+        try:
+            s._pvs_has_yield = c        # type: ignore[attr-defined]
+        except AttributeError:
+            pass
+    return c
+
+
+def run_gen(stmts, env, funcs, depth):
+    """the body of a generator function, as a Python generator: statements without a `yield` are run as usual, the compound statements
+    that contain one (if / while / for / try) are walked here so that the evaluation stops at each `yield` until the next value is asked for"""
+    for s in stmts:
+        if not _has_yield(s):
+            run([s], env, funcs, depth)
+        elif isinstance(s, ast.Expr) and isinstance(s.value, ast.Yield):
+            yield ev(s.value.value, env, funcs, depth) if s.value.value is not None else None
+        elif isinstance(s, ast.Expr) and isinstance(s.value, ast.YieldFrom):
+            yield from ev(s.value.value, env, funcs, depth)
+        elif isinstance(s, ast.If):
+            yield from run_gen(s.body if ev(s.test, env, funcs, depth) else s.orelse, env, funcs, depth)
+        elif isinstance(s, ast.While):
+            it, broke = 0, False
+            while ev(s.test, env, funcs, depth):
+                it += 1
+                if it > MAX_ITER:
+                    raise Unsupported("loop does not terminate within the iteration bound")
+                try:
+                    yield from run_gen(s.body, env, funcs, depth)
+                except _Break:
+                    broke = True
+                    break
+                except _Continue:
+                    continue
+            if not broke and s.orelse:
+                yield from run_gen(s.orelse, env, funcs, depth)
+        elif isinstance(s, ast.For):
+            it, broke = 0, False
+            for item in ev(s.iter, env, funcs, depth):
+                it += 1
+                if it > MAX_ITER:
+                    raise Unsupported("loop too long")
+                bind(s.target, item, env)
+                try:
+                    yield from run_gen(s.body, env, funcs, depth)
+                except _Break:
+                    broke = True
+                    break
+                except _Continue:
+                    continue
+            if not broke and s.orelse:
+                yield from run_gen(s.orelse, env, funcs, depth)
+        else:
+            raise Unsupported(f"`yield` inside `{type(s).__name__.lower()}`")
 
 
 def call(fn: ast.FunctionDef, args: list[Any], kws: dict[str, Any] | None = None, funcs: dict[str, ast.FunctionDef] | None = None,
@@ -667,11 +1030,19 @@ def call(fn: ast.FunctionDef, args: list[Any], kws: dict[str, Any] | None = None
     is_gen = getattr(fn, "_pvs_is_gen", None)
     if is_gen is None:
         is_gen = fn._pvs_is_gen = any(isinstance(x, (ast.Yield, ast.YieldFrom)) for st in body for x in ast.walk(st))
+    if is_gen:
+        # a generator function: its body runs lazily, one `yield` at a time, as the consumer asks for values
+        def _generator():
+            try:
+                yield from run_gen(body, env, funcs, depth)
+            except _Return:
+                return
+        return _generator()
     try:
         run(body, env, funcs, depth)
     except _Return as r:
-        return env.get("$yielded", []) if is_gen else r.value
-    return env.get("$yielded", []) if is_gen else None
+        return r.value
+    return None
 
 
 def module_tables(m, glob: dict[str, Any], funcs: dict[str, Any]) -> None:
@@ -685,6 +1056,36 @@ def module_tables(m, glob: dict[str, Any], funcs: dict[str, Any]) -> None:
                     glob[tg.id] = ev(top.value, {}, {**funcs, "$globals": glob})
                 except Exception:       # noqa: BLE001 - a name that cannot be evaluated stays free: using it is Unsupported
                     pass
+
+
+_CLASS_LEVEL: dict[tuple[int, str], dict[str, Any]] = {}
+
+
+def class_level(m, cls: str) -> dict[str, Any]:
+    """the class-level data attributes of an analysed class (and of its base classes in the same module) whose value the interpreter can
+    evaluate: constants and tables of constants (names of accessors, keys, ...), for instance stubs of the class"""
+    key = (id(m), cls)
+    if key not in _CLASS_LEVEL:
+        from .. import core as _core
+        chain = [cls]
+        while True:
+            nxt = [b for b in (_core.dotted(b) for b in m.cls(chain[-1]).bases) if b and b not in chain and m.has_cls(b)]
+            if not nxt:
+                break
+            chain.append(nxt[0])
+        out: dict[str, Any] = {}
+        g = {"$globals": module_consts(m)}
+        for c in reversed(chain):
+            for st in m.cls(c).body:
+                if isinstance(st, (ast.Assign, ast.AnnAssign)) and getattr(st, "value", None) is not None:
+                    t = st.targets[0] if isinstance(st, ast.Assign) and len(st.targets) == 1 else getattr(st, "target", None)
+                    if isinstance(t, ast.Name):
+                        try:
+                            out[t.id] = ev(st.value, dict(out), g)
+                        except Exception:       # noqa: BLE001 - not data the interpreter can evaluate: reading it stays Unsupported
+                            out.pop(t.id, None)
+        _CLASS_LEVEL[key] = out
+    return dict(_CLASS_LEVEL[key])
 
 
 def module_consts(m) -> dict[str, Any]:
